@@ -18,7 +18,7 @@ static Region reg[VR_NARR];
 
 static int shard, nshards, thorough;
 static long g_idx, st_programs, st_runs, st_viol, st_compiled, st_emul;
-static VTarget targets[4];
+static VTarget targets[8];
 static int ntargets, nsamples;
 static char *seen[400];
 static int nseen;
@@ -203,7 +203,7 @@ static void explore (OrcProgram * p, const char *text, long idx)
     if (native && !ORC_COMPILE_RESULT_IS_SUCCESSFUL (r)) continue;
     if (!native && (ORC_COMPILE_RESULT_IS_FATAL (r) || !p->orccode)) continue;
     st_compiled++;
-    regsize = !native ? 16 : !strcmp (path, "avx") ? 32 : !strcmp (path, "sse") ? 16 : 8;
+    regsize = !native ? 16 : !strncmp (path, "avx", 3) ? 32 : !strncmp (path, "sse", 3) ? 16 : 8;
     for (i = 0; i < VR_NARR; i++) if (sh0.present[i] && sh0.esize[i] < sz) sz = sh0.esize[i];
     V = regsize / sz;
     N = (thorough ? 4 : 2) * V * 2 + 3;
@@ -253,6 +253,19 @@ static void worker (long start, void *user)
   v_ops_init ();
   v_install_handlers ();
   ntargets = v_get_targets (targets, "avx,sse,mmx");
+  {
+    /* reduced feature sets select other load/store rules (pinsrw instead of pinsrb, ...): their memory accesses are
+     * entitled to the same elements */
+    int k, n0 = ntargets;
+    for (k = 0; k < n0; k++) {
+      if (!strcmp (targets[k].name, "sse")) {
+        targets[ntargets] = targets[k]; targets[ntargets].flags &= ~(unsigned) (ORC_TARGET_SSE_SSE4_1 | ORC_TARGET_SSE_SSE4_2); targets[ntargets].name = "sse/no-sse4.1"; ntargets++;
+        targets[ntargets] = targets[k]; targets[ntargets].flags &= ~(unsigned) (ORC_TARGET_SSE_SSE3 | ORC_TARGET_SSE_SSSE3 | ORC_TARGET_SSE_SSE4_1 | ORC_TARGET_SSE_SSE4_2); targets[ntargets].name = "sse/sse2-only"; ntargets++;
+      } else if (!strcmp (targets[k].name, "mmx")) {
+        targets[ntargets] = targets[k]; targets[ntargets].flags &= ~(unsigned) (ORC_TARGET_MMX_SSSE3 | ORC_TARGET_MMX_SSE4_1 | ORC_TARGET_MMX_SSE4_2); targets[ntargets].name = "mmx/mmxext-only"; ntargets++;
+      }
+    }
+  }
   regions_init ();
   if (strstr (g_levels, "L1")) pgen_L1 (on_prog, &start, PG_INT | PG_FLOAT);
   if (strstr (g_levels, "L2")) pgen_L2 (on_prog, &start, PG_INT);
